@@ -11,7 +11,7 @@ CONSTANTS
   LineStarts = {0, 2}
   MaxCmd = 2
   Cmds = {"continue","stepi"}
-  RunOut = TRUE
+  RunOut = FALSE
   Sigs = {"USR1","ALRM"}
   Quiet = {"ALRM"}
   Transparent = {"INT"}
